@@ -56,3 +56,6 @@ func (v *VerifBlock) ReleaseByHandle(cfg *IPAMConfig, opts ReleaseOptions) int {
 func (v *VerifBlock) GarbageCollect(ipCooldownSeconds int) bool {
 	return v.b.garbageCollect(ipCooldownSeconds)
 }
+
+// Empty re-exports allocationBlock.empty.
+func (v *VerifBlock) Empty() bool { return v.b.empty() }
